@@ -241,7 +241,7 @@ def run_idle(case):
                 else:
                     run.ctl.kill_all(m[2])
                 # generous wall-clock watchdog (the operation takes about a millisecond when the loop is woken up)
-                while time.time() - t0 < 10:
+                while time.time() - t0 < 20:
                     handled = (reply.done() if reply is not None else bool(run.handler_calls)) and (m[1] == 'status' or bool(run.handler_calls))
                     if handled:
                         break
